@@ -99,6 +99,7 @@ func jobScenario(r *core.Run, prop string) []*core.Violation {
 	}
 	cfg.NContracts = t.Intn(3)
 	cfg.EstimateHoldPerMille = []int{0, 100, 300}[t.Intn(3)]
+	cfg.AttestHoldPerMille = []int{0, 0, 150, 400}[t.Intn(4)]
 	faulty := t.Draw(2) == 1
 	if faulty {
 		r.Profile = "faulty"
